@@ -13,6 +13,9 @@ from props.c02 import frame, payload_for, KNOWN, H2, OTHER, varint
 REQ_HEADERS = "010d0000d1d750831af1ff518263cf"          # GET https://a.b/x
 RESP_HEADERS = "01030000d9"                               # 200
 SETTINGS = "000400"
+TRAILERS = "0108000023782d740176"                        # HEADERS frame: trailer section  x-t: v
+GET_URI = "68747470733a2f2f612e622f78"
+SEND_CMDS = ("sr", "sd", "st", "fi")
 
 
 def _inventory_files():
@@ -24,16 +27,36 @@ def _inventory_files():
         sys.path.pop(0)
 
 
-def ended_streams(ops):
-    """stream ids the peer finished/reset, and whether the connection was closed, by the script"""
-    ended, closed = set(), False
-    for op in ops:
-        m = re.match(r"^[fr](\d+)", op)
+def stream_events(role, cfg, ops):
+    """What the peer's script has ended.  A stream op counts only if the stream EXISTS when it is applied (SimQuic
+    ignores it otherwise): server - the peer opened it before (`o<sid>`); client - a unidirectional stream the peer
+    opened before, or a request stream whose request was sent before (the (sid/4+1)-th `snd.R`; not decidable from
+    the line when bidirectional stream credit is limited, `bc=`: then no op on a request stream is counted).
+    Returns (ended: receive sides finished / reset by `f<sid>` / `r<sid>`, stopped: {sid: op index} send sides ended
+    by STOP_SENDING `x<sid>`, closed: the connection was closed / timed out)."""
+    ended, stopped, closed = set(), {}, False
+    opened, nreq = set(), 0
+    limited = any(t.startswith("bc=") for t in cfg.split(","))
+    for i, op in enumerate(ops):
+        m = re.match(r"^o(\d+)$", op)
         if m:
-            ended.add(int(m.group(1)))
+            opened.add(int(m.group(1)))
+        if op.startswith("snd.R"):
+            nreq += 1
+        m = re.match(r"^([frx])(\d+)", op)
+        if m:
+            sid = int(m.group(2))
+            if role == "server" or sid % 4 != 0:
+                exists = sid in opened
+            else:
+                exists = not limited and sid // 4 < nreq
+            if exists and m.group(1) == "x":
+                stopped.setdefault(sid, i)
+            elif exists:
+                ended.add(sid)
         if re.match(r"^C\d+$", op) or op == "T":
             closed = True
-    return ended, closed
+    return ended, stopped, closed
 
 
 def fired_faults(impl):
@@ -56,35 +79,92 @@ class C06(Prop):
     id = "C06"
     thorough_rounds = 10   # thorough tier: this many independently seeded rounds of the random generators (duplicates dropped)
     modules = ["H3.Props.C06", "H3.Lemmas.GenAgreeFrame", "H3.Lemmas.GenAgreeReq", "H3.Lemmas.GenAgreeCtl"]
-    engines = ["adv", "flt"]
+    engines = ["adv", "flt", "wt"]
+    # every case line runs in well under a second (the longest, a million minimal frames, 0.2 s): a harness process
+    # that does not come back within 10 s (or 5 ms per line of the batch) is executing a line that never returns -
+    # recorded as `process-hang` (a failing input by itself) and the run continues behind it
+    batch_timeout = 10
+    batch_line_allowance = 0.005
+    batch_max_hangs = 3     # per batch of 2000 lines; the rest of such a batch is reported as not executed
     design_ref = "DESIGN.md section 7, C06"
     level_text = ("Lean theorems: no step of the receive-path models (frame layer, request receive machine, uni-stream type "
-                  "resolution, control machine, QPACK/field parsing) returns the explicit panic outcome under the documented call "
-                  "patterns, and once the script has ended a stream (FIN/RESET) or the connection, no call waiting on it stays "
-                  "pending; tied to the source by the panic-site inventory (every unwrap/expect/assert/index/subtraction on the "
-                  "receive-path files is listed with the guard or lemma that covers it; an unlisted site breaks the obligation) and "
-                  "by adversarial peer scripts over SimQuic with panics caught per case")
-    level_note = ("trusted: Lean kernel + 3 standard axioms; the models (tied by the other properties' correspondence runs); "
-                  "tools/panic_sites.py + tools/panic_table.json (hand-written justifications); debug assertions and overflow checks "
-                  "are ON in the harness build so wrap-arounds would surface as panics; memory exhaustion is out of scope")
+                  "resolution, control machine, QPACK/field parsing) returns the explicit panic outcome - on a request stream for "
+                  "EVERY order of recv_data / recv_trailers calls from every state (no call-pattern hypothesis, after the repair of "
+                  "D-06t: recv_trailers tests has_data() first), the message head as the first call; once the script has ended a "
+                  "stream (FIN/RESET) or the connection - the connection error is an event of the model (H3.ConnClose, carried "
+                  "additively by the frame-stream model) - no call waiting on it stays pending, from any state; every send-side call "
+                  "(send_request incl. its wait for stream credit, send_response, send_data, send_trailers, finish with its grease "
+                  "frame) against every script of flow-control answers and error answers (STOP_SENDING => StreamTerminated, "
+                  "close/timeout => connection error) never panics, returns exactly the first error answer, and stays pending only "
+                  "while the script contains no error and too little credit; tied to the source by the panic-site inventory (every "
+                  "unwrap/expect/assert/index/range, every + - * << >> pow and / % by a non-literal, every panicking Buf/BufMut/Bytes "
+                  "call on the receive-path files is listed with the guard or theorem that covers it; an unlisted site breaks the "
+                  "obligation) and by adversarial peer scripts over SimQuic with panics caught per case")
+    level_note = ("trusted: Lean kernel + 3 standard axioms; the models (tied by the other properties' correspondence runs; the guard "
+                  "of poll_recv_trailers is re-read from the source on every run: H3.Gen.ReqArms.trailersGuard, GenAgreeReq); "
+                  "tools/panic_sites.py + tools/panic_table.json (hand-written justifications, cited theorem names checked); debug "
+                  "assertions and overflow checks are ON in the harness build so wrap-arounds surface as panics; that the transport "
+                  "wakes every task parked on one of its calls when a stream or the connection ends (SimQuic does; observed at "
+                  "executor quiescence, R-06); memory exhaustion is out of scope; KNOWN FINDING D-06u (Huffman decoder's u32 bit "
+                  "positions overflow for a string literal of 2^29 bytes or more) is probed on every run")
     rule = ("adversarial peer scripts: grammar-mutated and arbitrary bytes on request, control, QPACK and unknown streams, random "
-            "chunking, FIN/RESET/STOP_SENDING/close/timeout injected at every step index of base scenarios, both roles, documented "
-            "call patterns; the same exchanges over a failing transport: faults (every ConnectionErrorIncoming / StreamErrorIncoming "
-            "variant) armed at every step index and at random positions on every transport call site (open, send_data, poll_ready, "
-            "poll_finish, accept, poll_data; k-th call), also before the connection is built; engine `flt`: the systematic fault "
-            "scenarios of tools/props/faults.py judged by H3.Spec.Faults (nothing pending once the transport has failed, no "
-            "unexplained error); non-trivial = at least one API call completed with a result other than no-task")
+            "chunking, FIN/RESET/STOP_SENDING/close/timeout injected at every step index of base scenarios (with and without valid "
+            "trailers and grease frames between / behind the frames), both roles, documented call patterns - and, on a tree with the "
+            "repair of D-06t, recv_data / recv_trailers in arbitrary order and number, going on after errors; SEND side: no write "
+            "credit / no stream credit by default, credit handed out a few bytes at a time so that send_response / send_data / "
+            "send_trailers / finish (grease frame) / send_request is left pending inside a frame, at a frame boundary or before its "
+            "first byte, THEN STOP_SENDING / RESET / close / timeout behind every prefix (a send call still pending after the peer's "
+            "STOP_SENDING or a close is a hang); WebTransport stream reads through both AsyncRead faces (engine wt), plain and in "
+            "FILL mode (one tokio ReadBuf / the unfilled sub-slice across calls, as read_exact does), buffer sizes that chunks "
+            "cross, reads before / between / after the deliveries, FIN / RESET / close / timeout; the same exchanges over a failing "
+            "transport: faults (every ConnectionErrorIncoming / StreamErrorIncoming variant) armed at every step index and at random "
+            "positions on every transport call site, also before the connection is built; engine `flt`: the systematic fault "
+            "scenarios of tools/props/faults.py judged by H3.Spec.Faults; a harness process that does not return from a line "
+            "within 10 s is a failing input (process-hang); non-trivial = at least one API call completed with a result other than "
+            "no-task")
     trusted = ["the decision tables of the receive paths (H3.Gen.FrameDispatch, ReqArms, FirstFrame, CtlArms, UniArms, FrameErrCodes) are re-read from the sources on this run and the models this property's theorems are about are proved to follow them (H3.Lemmas.GenAgreeFrame/GenAgreeReq/GenAgreeCtl, rebuilt on this run)"]
-    assumptions = ["'pending forever' is judged at executor quiescence after the script ended what the call waits on (R-06)"]
+    assumptions = ["'pending forever' is judged at executor quiescence after the script ended what the call waits on (R-06)",
+                   "recv_response is called once, before recv_data (its documentation); resolve_request consumes the resolver",
+                   "engine wt lines: the C19 driver predicts every observable (C19's projection); a closed connection reaches a "
+                   "WebTransport stream read as err:conn once h3's own buffer is empty"]
+
+    # ---- the repair of D-06t (recv_trailers while a DATA payload is outstanding: `assert!` of poll_next)
+    FIX_SUBJECT = "fix: recv_trailers answers an error instead of panicking while a DATA payload is outstanding"
+    D06T_WITNESS = "adv server g0 conn.AL o2 s2:000400 o0 s0:%s0004aabb f0 q0.res q0.rb q0.rt" % REQ_HEADERS
+
+    def has_trailers_guard(self):
+        """Is the repair in the repository under test?  Yes if its commit is in the history (then call sequences
+        outside the documented pattern are generated unconditionally, so that losing the guard again is a failing
+        input), or - history rewritten - if the witness no longer panics."""
+        if getattr(self, "_guard", None) is None:
+            rc, out = vlib.sh(["git", "-C", vlib.REPO, "log", "--format=%s", "-n", "1000"])
+            self._guard = self.FIX_SUBJECT in out
+            if not self._guard:
+                try:
+                    rc, o, err = vlib.run_lines(vlib.RUN, [self.D06T_WITNESS], timeout=60)
+                    self._guard = bool(o) and " | " in o[0]
+                except Exception:
+                    self._guard = False
+        return self._guard
 
     # ---- projection: the only observables are `panic` and calls left pending on something that has ended
     def project(self, line, impl):
         ops = line.split()[3:]
+        if impl in ("hang", "abort"):
+            # the harness process did not come back from this line / died on it (vlib says the same in the main run;
+            # the shrinker and the replay come through here)
+            return "process-" + impl
+        if line.startswith("wt "):
+            # WebTransport stream I/O (engine wt): C19's observables, which the Lean driver predicts in full -
+            # a panic or a call left waiting where the model says it returns is then a difference
+            from props import c19
+            return c19.PROP.project(line, impl)
         if impl == "panic" or impl == "abort":
             return "panic=1 hang=[]"
         if impl.startswith("bad-op"):
             return impl
-        ended, closed = ended_streams(ops)
+        role, cfg = line.split()[1], line.split()[2]
+        ended, stopped, closed = stream_events(role, cfg, ops)
         e2, c2 = fired_faults(impl)
         ended, closed = ended | e2, closed or c2
         m = re.search(r"pending=\[([^\]]*)\]", impl)
@@ -120,14 +200,30 @@ class C06(Prop):
             mm = re.match(r"^[qw](\d+)s?$", task)
             if mm and int(mm.group(1)) in ended and cmd in ("res", "rr", "rd", "rb", "rm", "rt"):
                 hang.append(p)
+            # the send side: the peer's STOP_SENDING ends send_response / send_data / send_trailers / finish of
+            # that stream (they wait for write credit the peer will never grant now)
+            if mm and int(mm.group(1)) in stopped and cmd in SEND_CMDS:
+                hang.append(p)
+            # client send_request waiting for write credit on the stream it has opened (the newest one)
+            if p == "snd.R" and role == "client":
+                mine = [int(x) for x in re.findall(r"(?:^| )(\d+):tx=", impl.split(" | ", 1)[-1]) if int(x) % 4 == 0]
+                done = len(re.findall(r"(?:^| )snd\.R=", impl.split(" | ", 1)[0]))
+                calls = [i for i, op in enumerate(ops) if op.startswith("snd.R")]
+                if mine and max(mine) in stopped and len(calls) > done and stopped[max(mine)] > calls[done]:
+                    hang.append(p)
         return "panic=0 hang=[%s]" % ",".join(sorted(hang))
 
     def project_all(self, lines, impls):
         from props import faults
-        res = [None] * len(lines)
-        idx = [i for i, l in enumerate(lines) if l.startswith("flt")]
+        res = [("process-" + o) if o in ("hang", "abort") else None for o in impls]
+        idx = [i for i, l in enumerate(lines) if l.startswith("flt") and res[i] is None]
         for i, p in zip(idx, faults.project_all([lines[i] for i in idx], [impls[i] for i in idx])):
             res[i] = p
+        idx = [i for i, l in enumerate(lines) if l.startswith("wt ") and res[i] is None]
+        if idx:
+            from props import c19
+            for i, p in zip(idx, c19.PROP.project_all([lines[i] for i in idx], [impls[i] for i in idx])):
+                res[i] = p
         for i, l in enumerate(lines):
             if res[i] is None:
                 res[i] = self.project(l, impls[i])
@@ -137,6 +233,11 @@ class C06(Prop):
         """histogram key: role + the kinds of results the API calls produced + close codes (+ the faults that fired)"""
         if " | " not in raw:
             return raw[:20]
+        if line.startswith("wt "):
+            kinds = sorted({m.group(1) + ":" + m.group(2) for m in
+                            re.finditer(r"w\d+s?\.(r[aft][ft]?)=data:[^ ]*?:(end|more|err:rterm|err:conn)", raw)})
+            pend = re.search(r"pending=\[([^\]]*)\]", raw)
+            return "wt %s pending=[%s]" % (",".join(kinds), re.sub(r"\d+", "", pend.group(1)) if pend else "")
         if line.startswith("flt"):
             return "flt %s" % line.split()[1] + " fired=[%s]" % ",".join(
                 sorted(set(re.sub(r"\d+", "", t[1:]) for t in raw.split(" | ")[0].split() if t.startswith("!"))))
@@ -155,6 +256,8 @@ class C06(Prop):
     def trivial_raw(self, line, raw):
         if raw.startswith("bad-op"):
             return True
+        if line.startswith("wt "):
+            return "conn.WT=ok" not in raw
         if line.startswith("flt"):
             return not any(t.startswith("!") or t.startswith("close:") or "=err:" in t for t in raw.split(" | ")[0].split())
         trace = raw.split(" | ")[0].split()
@@ -175,11 +278,43 @@ class C06(Prop):
                             "q%d.sr:200" % sid, "q%d.sd:aabb" % sid, "q%d.fi" % sid]
                     sid += 4
                 out.append(ops)
+            out += self.trailer_scenarios(rng, role)
         else:
             for _ in range(6):
                 ops = ["drv.W", "o3", "s3:" + SETTINGS, "snd.R:GET:68747470733a2f2f612e622f78:-", "q0.fi",
                        "s0:" + RESP_HEADERS + hx(frame(0x0, [1, 2, 3], rng)), "q0.rr", "q0.rm", "f0"]
                 out.append(ops)
+            out += self.trailer_scenarios(rng, role)
+        return out
+
+    def trailer_scenarios(self, rng, role):
+        """messages that END WITH VALID TRAILERS (recv_trailers answers Some): body of 0-2 DATA frames, reserved
+        (grease) frames between the frames and behind the trailers, delivered whole / cut at the frame boundaries /
+        in small chunks, the receive pattern called before, in the middle of, or after the delivery"""
+        out = []
+        for k in range(4):
+            grease = lambda: rng.choice(["", "", "2100", "402100", "2103aabbcc", "21004021020102"])
+            body = "".join(hx(frame(0x0, [rng.randrange(256) for _ in range(rng.randrange(0, 5))], rng)) + grease()
+                           for _ in range(rng.randrange(0, 3)))
+            head = REQ_HEADERS if role == "server" else RESP_HEADERS
+            parts = [head + grease(), body, TRAILERS, grease()]
+            if k == 0:
+                chunks = ["s0:" + "".join(parts)]
+            elif k == 1:
+                chunks = ["s0:" + x for x in parts if x]
+            else:
+                chunks = self.chunked(0, "".join(parts), rng) if k == 2 else \
+                    ["s0:%02x" % b for b in bytes.fromhex("".join(parts))]
+            first = "q0.res" if role == "server" else "q0.rr"
+            pre = ["conn.AL", "o2", "s2:" + SETTINGS, "o0"] if role == "server" else \
+                ["drv.W", "o3", "s3:" + SETTINGS, "snd.R:GET:%s:-" % GET_URI, "q0.fi"]
+            cut = rng.randrange(0, len(chunks) + 1)
+            if role == "server" and cut == 0:
+                cut = 1          # the request task exists once the first bytes are there
+            ops = pre + chunks[:cut] + [first, "q0.rm"] + chunks[cut:] + ["f0"]
+            if role == "server":
+                ops += ["q0.sr:200", "q0.st:782d74=76", "q0.fi"]
+            out.append(ops)
         return out
 
     def garbage(self, rng, n=None):
@@ -320,15 +455,209 @@ class C06(Prop):
                     L.append(self.with_faults(role, cfg, rng_ops, ctl, uni, bidi, rng))
         # the transport fails at every step index of the base scenarios
         for role in ("server", "client"):
-            for base in self.base_scenarios(rng, role)[:3 if big else 2]:
+            bases = self.base_scenarios(rng, role)
+            for base in bases[:3 if big else 2] + bases[6:9 if big else 8]:      # plain ones + ones with trailers
                 ctl = 2 if role == "server" else 3
                 sids = sorted({int(m.group(1)) for op in base for m in [re.match(r"^[os](\d+)", op)] if m})
                 for i in range(len(base) + 1):
                     for f in self.fault_menu(role, sids, rng, 6 if big else 3):
                         L.append("adv %s g1 %s" % (role, " ".join(base[:i] + [f] + base[i:])))
+        # send calls left waiting for write credit / stream credit, then STOP_SENDING / RESET / close / timeout
+        L += self.send_side_cases(rng, big)
+        # receive calls in ANY order, also after errors (C06_no_panic_any_call_order) - on a tree with the repair
+        if self.has_trailers_guard():
+            L += self.free_order_cases(rng, big)
+        # WebTransport stream reads through both AsyncRead faces, buffers filled across calls, adversarial chunking
+        L += self.wt_cases(rng, big)
         # whole connections whose transport fails, judged by the oracle H3.Spec.Faults (engine flt)
         from props import faults
         L += faults.cases(big, rng)
+        return L
+
+    def send_side_cases(self, rng, big):
+        """Send-side liveness.  The peer grants NO write credit by default (`wc=0`; the endpoint's own three
+        unidirectional streams get theirs so that the setup completes) or no bidirectional stream credit (`bc=`),
+        then hands out a few bytes at a time, so that send_response / send_data / send_trailers / finish (with the
+        grease frame, `g1`) / send_request is left PENDING in the middle of a frame, at a frame boundary, or before its
+        first byte - and THEN sends STOP_SENDING, resets its own side, closes the connection or lets it time out.
+        The ending is placed behind every prefix of the exchange; a few calls follow it."""
+        L = []
+        ends_stream = ["x%d:0", "x%d:7", "x%d:268", "r%d:3"]
+        ends_conn = ["C0", "C256", "C%d" % (2**62 - 1), "T"]
+        hdrs = ["-", "782d74=76"]
+
+        def grant(sid):
+            return "gw%d:%d" % (sid, rng.choice([1, 1, 2, 3, 4, 5, 7, 15, 40]))
+
+        for role in ("server", "client"):
+            own = [3, 7, 11] if role == "server" else [2, 6, 10]
+            n = (60 if big else 24)
+            for it in range(n):
+                g = rng.choice(["g0", "g1"])
+                cfg = "%s,wc=0,seed=%d" % (g, rng.randrange(1, 1000))
+                pre = ["gw%d:100000" % i for i in own]
+                if role == "server":
+                    pre += ["conn.AL", "o2", "s2:" + SETTINGS]
+                    nreq = rng.choice([1, 1, 2])
+                    calls = []
+                    for k in range(nreq):
+                        sid = 4 * k
+                        pre += ["o%d" % sid, "s%d:%s%s" % (sid, REQ_HEADERS, hx(frame(0x0, [1, 2], rng))), "f%d" % sid,
+                                "q%d.res" % sid]
+                        t = "q%d" % sid
+                        if rng.random() < 0.3:
+                            pre.append("%s.sp" % t)
+                            calls.append("%s.rm" % t)
+                            t += "s"
+                        else:
+                            pre.append("%s.rm" % t)
+                        prog = ["%s.sr:200:%s" % (t, rng.choice(hdrs))]
+                        for _ in range(rng.randrange(0, 3)):
+                            prog.append("%s.sd:%s" % (t, self.garbage(rng, rng.choice([0, 1, 2, 9, 40]))))
+                        if rng.random() < 0.5:
+                            prog.append("%s.st:%s" % (t, rng.choice(hdrs)))
+                        prog.append("%s.fi" % t)
+                        calls += prog
+                    sids = [4 * k for k in range(nreq)]
+                else:
+                    pre += ["drv.W", "o3", "s3:" + SETTINGS]
+                    calls = ["snd.R:%s:%s:%s" % (rng.choice(["GET", "POST"]), GET_URI, rng.choice(hdrs))]
+                    for _ in range(rng.randrange(0, 3)):
+                        calls.append("q0.sd:%s" % self.garbage(rng, rng.choice([0, 1, 2, 9, 40])))
+                    if rng.random() < 0.4:
+                        calls.append("q0.st:%s" % rng.choice(hdrs))
+                    calls.append("q0.fi")
+                    if rng.random() < 0.4:
+                        calls.insert(rng.randrange(1, len(calls) + 1), "q0.rr")
+                    sids = [0]
+                # credit trickles in between the calls; it runs dry somewhere
+                prog, dry = [], rng.randrange(0, len(calls) + 1)
+                for i, c in enumerate(calls):
+                    prog.append(c)
+                    if i < dry:
+                        m = re.match(r"^q(\d+)", c)
+                        prog.append("gw%d:100000" % (int(m.group(1)) if m else 0))
+                    elif rng.random() < 0.6:
+                        m = re.match(r"^q(\d+)", c)
+                        prog.append(grant(int(m.group(1)) if m else 0))
+                tail = ["q%d.fi" % sids[0], "q%d.sd:aa" % sids[0]] if rng.random() < 0.5 else []
+                L.append("adv %s %s %s" % (role, cfg, " ".join(pre + prog)))
+                positions = range(len(prog) + 1) if (big or it < 8) else sorted({rng.randrange(0, len(prog) + 1) for _ in range(4)})
+                for i in positions:
+                    ends = [rng.choice(ends_conn), rng.choice(ends_stream) % rng.choice(sids), "x%d:9" % sids[0]]
+                    for e in ends:
+                        L.append("adv %s %s %s" % (role, cfg, " ".join(pre + prog[:i] + [e] + prog[i:] + tail)))
+                    # both: first the stream, then the connection
+                    L.append("adv %s %s %s" % (role, cfg, " ".join(
+                        pre + prog[:i] + ["x%d:5" % sids[0]] + prog[i:i + 1] + [rng.choice(ends_conn)] + prog[i + 1:])))
+        # client: send_request waits for STREAM credit (`bc=`), then close / timeout / late credit without write credit
+        for it in range(40 if big else 16):
+            bc = rng.choice([0, 0, 1, 2])
+            wc = rng.choice(["", "", ",wc=0"])
+            cfg = "%s,bc=%d%s" % (rng.choice(["g0", "g1"]), bc, wc)
+            pre = (["gw2:100000", "gw6:100000", "gw10:100000"] if wc else []) + ["drv.W", "o3", "s3:" + SETTINGS]
+            reqs = []
+            for k in range(bc + rng.choice([1, 1, 2])):
+                reqs.append("snd.R:GET:%s:-" % GET_URI)
+                if wc and rng.random() < 0.7:
+                    reqs.append("gw%d:%d" % (4 * k, rng.choice([3, 15, 100000])))
+                if k < bc and rng.random() < 0.5:
+                    reqs.append("q%d.fi" % (4 * k))
+            late = rng.choice([[], [], ["gb1"], ["gb1", "x%d:3" % (4 * bc)], ["gb2", "gw%d:4" % (4 * bc)]])
+            for i in range(len(reqs) + 1):
+                for e in (rng.choice(ends_conn), rng.choice(["T", "C0"])):
+                    L.append("adv client %s %s" % (cfg, " ".join(pre + reqs[:i] + [e] + reqs[i:])))
+            for e in ends_conn[:2] + ["x%d:1" % (4 * bc)]:
+                L.append("adv client %s %s" % (cfg, " ".join(pre + reqs + late + [e, "snd.R:GET:%s:-" % GET_URI])))
+        return L
+
+    def free_order_cases(self, rng, big):
+        """recv_data / recv_trailers (and the loops built from them) in ARBITRARY order and number, going on after
+        errors, against bodies that are truncated by FIN, reset inside a DATA frame, left incomplete, followed by
+        trailers / a WebTransport frame / garbage - the call sequences the documented pattern excludes."""
+        L = [self.D06T_WITNESS]
+        for role in ("server", "client"):
+            for _ in range(1200 if big else 400):
+                hdr = REQ_HEADERS if role == "server" else RESP_HEADERS
+                n = rng.choice([2, 4, 4, 9])
+                have = rng.randrange(0, n + 1)
+                body = "00%02x%s" % (n, self.garbage(rng, have) if have else "")
+                k = rng.random()
+                data = hdr + (body if k < 0.6 else body + TRAILERS if k < 0.7 else "4100aabb" if k < 0.8
+                              else hx(frame(0x0, [1, 2, 3], rng)) + body if k < 0.9 else self.mutated_frames(rng))
+                end = rng.choice(["f0", "f0", "r0:7", "C256", "T", None])
+                pre = ["conn.AL", "o2", "s2:" + SETTINGS, "o0"] if role == "server" else \
+                    ["drv.W", "o3", "s3:" + SETTINGS, "snd.R:GET:%s:-" % GET_URI, "q0.fi"]
+                ev = self.chunked(0, data, rng) + ([end] if end else [])
+                calls = ["q0.res" if role == "server" else "q0.rr"]
+                calls += [rng.choice(["q0.rd", "q0.rd", "q0.rt", "q0.rt", "q0.rb", "q0.rm"]) for _ in range(rng.randrange(2, 7))]
+                # the head call first (the server's request task exists once the first bytes are there), the rest anywhere
+                ops = ev[:1] + calls[:1]
+                rest = self.merge(rng, ev[1:], calls[1:])
+                L.append("adv %s %s %s" % (role, rng.choice(["g0", "g1", "g0,seed=%d" % rng.randrange(1, 1000)]),
+                                           " ".join(pre + ops + rest)))
+        return L
+
+    def merge(self, rng, a, b):
+        a, b, out = list(a), list(b), []
+        while a or b:
+            if a and (not b or rng.random() < len(a) / (len(a) + len(b))):
+                out.append(a.pop(0))
+            else:
+                out.append(b.pop(0))
+        return out
+
+    def wt_cases(self, rng, big):
+        """Engine `wt` (C19's interpreter and Lean driver; projection = C19's observables, so a panic, a call left
+        waiting, or a wrong byte is a difference).  A WebTransport bidi / uni stream of the peer carries 3-40 payload
+        bytes in chunks of the PEER's choosing; the application reads through tokio / futures `poll_read` - plain
+        (`rt` / `rf`: a fresh buffer per call) and in FILL mode (`rtf` / `rff`: one `ReadBuf` / the unfilled sub-slice
+        until the buffer is full, as `read_exact` does), buffer sizes chosen so that chunks cross the end of a partly
+        filled buffer; the read is issued before, between or after the deliveries; the stream then ends with FIN /
+        RESET, or the connection is closed / times out (possibly with data still queued)."""
+        from props import c19
+        L = []
+        n = 1500 if big else 500
+        for it in range(n):
+            bidi = rng.random() < 0.6
+            sid = 4 if bidi else 6
+            cfg = "g0,wt=1,ec=1,dg=1" + (",seed=%d" % rng.randrange(1, 1000) if rng.random() < 0.5 else "")
+            pre = ["o2", "s2:" + c19.PEER_SETTINGS, "o0", "s0:" + c19.CONNECT, "conn.WT", "o%d" % sid]
+            hdr = "404100" if bidi else "405400"
+            payload = [rng.getrandbits(8) for _ in range(rng.choice([3, 5, 8, 12, 12, 17, 40]))]
+            # the peer's chunking
+            chunks, i = [], 0
+            while i < len(payload):
+                k = rng.choice([1, 2, 3, 3, 5, 9, 13])
+                chunks.append(payload[i:i + k])
+                i += k
+            ev = ["s%d:%s" % (sid, hx(c)) for c in chunks]
+            if rng.random() < 0.3:
+                ev[0] = "s%d:%s%s" % (sid, hdr, hx(chunks[0]))     # header and first bytes in one chunk
+                head = []
+            else:
+                head = ["s%d:%s" % (sid, hdr)]
+            acc = "conn.ab" if bidi else "conn.au"
+            sizes = lambda: ",".join(str(rng.choice([1, 2, 4, 7, 8, 8, 10, 16, len(payload), len(payload) + 1]))
+                                     for _ in range(rng.randrange(1, 3)))
+            reads = []
+            for _ in range(rng.choice([1, 1, 2])):
+                m = rng.choice(["rtf", "rtf", "rtf", "rff", "rff", "rt", "rf"])
+                calls = ":%d" % rng.randrange(1, 4) if rng.random() < 0.3 else ""
+                reads.append("w%d.%s:%s%s" % (sid, m, sizes(), calls))
+            end = rng.choice(["f%d" % sid] * 4 + ["r%d:%d" % (sid, rng.choice([0, 7, 268]))] * 2 + ["C0", "C256", "T"])
+            tail = ev + [end]
+            # reads are placed anywhere behind the accept (which needs the complete header)
+            first = rng.randrange(0, 2) if not head else 0
+            body = tail[:first] + [acc] + tail[first:] if not head else [acc] + tail
+            if head and rng.random() < 0.5:
+                body = tail[:1] + [acc] + tail[1:]
+            for r in reads:
+                j = body.index(acc) + 1
+                body.insert(rng.randrange(j, len(body) + 1), r)
+            if end[0] in "CT" and rng.random() < 0.5:
+                body.append("w%d.%s:4" % (sid, rng.choice(["rtf", "rff", "rt", "rf", "ra"])))
+            L.append("wt server %s %s" % (cfg, " ".join(pre + head + body)))
         return L
 
     def fault_menu(self, role, sids, rng, n):
@@ -410,17 +739,67 @@ class C06(Prop):
                 if not is_ns and last not in decl:
                     res.append(("broken", "panic-site inventory: justification of `%s` (%s) cites %s, which does not exist"
                                 % (e["line"][:60], e["file"], n), {"site": e["line"], "name": n}))
-        if not res:
+        res += self.overflow_probes()
+        if not self.has_trailers_guard():
+            res.append(("note", "the repository under test does not contain the repair `%s`: recv_trailers called while a DATA "
+                                "payload is outstanding still panics there (D-06t, witness `%s`); call sequences outside the "
+                                "documented pattern are therefore not generated on this tree and C06_no_panic_any_call_order "
+                                "speaks about the repaired function (H3.ReqRecv.pollRecvTrailersG)"
+                        % (self.FIX_SUBJECT, self.D06T_WITNESS), {}))
+        if not [r for r in res if r[0] in ("broken", "violation")]:
             res.append(("note", "panic-site inventory: %d sites found on %d receive-path files, %d listed, 0 unlisted, "
                                 "%d stale table entries; %d distinct theorems cited by the justifications, all present"
                         % (out.get("found", 0), len(_inventory_files()), out.get("listed", 0),
                            out.get("stale_entries", 0), len(cited)), {}))
         return res
 
+    PROBES = ["huff decn 00 536870912"]
+
+    def overflow_probes(self):
+        """Sites of the inventory whose only justification is a bound on the SIZE of the input (too large for a
+        generated case line) are probed directly on the real code: a panic here is a failing input unless it is a
+        listed finding (`case:<line>` in known_findings.json), in which case it is reported as KNOWN-FINDING."""
+        res = []
+        findings = vlib.load_findings()
+        for line in self.PROBES:
+            try:
+                rc, out, err = vlib.run_lines(vlib.RUN, [line], timeout=300)
+                got = out[0] if out else "abort"
+            except subprocess.TimeoutExpired:
+                got = "process-hang"
+            if got.startswith("ok") or got.startswith("err") or got.startswith("harness-error err"):
+                res.append(("note", "overflow probe `%s`: %s (no panic)" % (line, got), {}))
+                continue
+            fs = [f for f in findings.get("findings", []) if f.get("property") == self.id
+                  and f.get("status", "open") == "open" and f.get("key") == "case:" + line]
+            if fs:
+                res.append(("known", line, fs[0]))
+            else:
+                res.append(("violation", "overflow probe `%s`: %s" % (line, got),
+                            {"case": line, "impl": got, "model": "-", "spec": "ok ** || err **",
+                             "kind": "implementation panics / overflows on an input of the panic-site inventory's size probes"}))
+        return res
+
     def shrink_candidates(self, line):
+        if line.startswith("wt "):
+            # everything up to and including the accept of the stream stays (session, stream header): a line whose
+            # tasks do not exist, or whose accept waits inside a header, is outside the engine's domain; the reads,
+            # the later deliveries and the ending are what shrinks
+            w = line.split()
+            ops = w[3:]
+            k = max([i for i, o in enumerate(ops) if o in ("conn.ab", "conn.au")] + [-1])
+            return [" ".join(w[:3] + ops[:i] + ops[i + 1:]) for i in range(k + 1, len(ops))]
         w = line.split()
         out = []
         ops = w[3:]
+        # coarse first: everything that happens on one stream; the second half; then single ops
+        sids = sorted({m.group(1) for o in ops for m in [re.match(r"^(?:[osfrx]|gw|q|!\w\w)(\d+)", o)] if m}, key=int)
+        for sid in sids:
+            rest = [o for o in ops if not re.match(r"^(?:[osfrx]|gw|q|!\w\w)%s(?!\d)" % sid, o)]
+            if len(rest) < len(ops):
+                out.append(" ".join(w[:3] + rest))
+        if len(ops) > 6:
+            out.append(" ".join(w[:3] + ops[:len(ops) // 2]))
         for i in range(len(ops)):
             out.append(" ".join(w[:3] + ops[:i] + ops[i + 1:]))
         return out
